@@ -308,16 +308,17 @@ class SeqV:
 class MapV:
     """finite map modelled lazily: `reads` is a tuple of (key_term, present: z3 Bool, value) facts
     established so far (by lazy initialisation or by writes); later entries shadow earlier ones."""
-    __slots__ = ('name', 'entries', 'val_ty', 'key_bits')
+    __slots__ = ('name', 'entries', 'val_ty', 'key_bits', 'closed')
 
-    def __init__(self, name, entries=(), val_ty=None, key_bits=None):
+    def __init__(self, name, entries=(), val_ty=None, key_bits=None, closed=False):
         self.name = name
         self.entries = tuple(entries)
         self.val_ty = val_ty
         self.key_bits = key_bits
+        self.closed = closed      # closed world: a key none of the recorded entries is about is ABSENT (a map that started empty)
 
     def with_entry(self, key, present, value):
-        return MapV(self.name, self.entries + ((key, present, value),), self.val_ty, self.key_bits)
+        return MapV(self.name, self.entries + ((key, present, value),), self.val_ty, self.key_bits, self.closed)
 
     def __repr__(self):
         return 'Map(%s,%d entries)' % (self.name, len(self.entries))
